@@ -210,10 +210,36 @@ func tailLossScenario(n uint8, reversePeriod time.Duration, keepalive bool) *Gbn
 	return sc
 }
 
+// ackTailLossScenario: every ACK of a delivered window and the first NACK that answers the
+// retransmission are lost; the two ends have different resend timeouts (the receiver's NACK
+// back-off is measured in its own timeout, the sender's retransmissions in the sender's).
+func ackTailLossScenario(n uint8, cliTO, srvTO time.Duration, lost int) *GbnScenario {
+	faults := make([]Fault, lost)
+	for i := range faults {
+		faults[i] = Fault{Drop: true}
+	}
+	msgs := make([]int, int(n)+2)
+	for i := range msgs {
+		msgs[i] = 3
+	}
+	return &GbnScenario{Name: fmt.Sprintf("ack-tail-loss-n%d-%v-%v-lost%d", n, cliTO, srvTO, lost), N: n,
+		Msgs:   [2][]int{msgs, nil},
+		Faults: [2][]Fault{cleanHS(0, nil), cleanHS(1, faults)}, Latency: 10 * time.Millisecond,
+		StaticEP: [2]time.Duration{cliTO, srvTO}, RunFor: 300 * time.Second}
+}
+
 func TestC06(t *testing.T) {
 	r := NewRecorder(t, "C06")
 	defer r.Close(t)
 	scs := c06Scenarios()
+	for _, n := range []uint8{1, 2, 3} {
+		for _, to := range [][2]time.Duration{{400 * time.Millisecond, 1500 * time.Millisecond}, {time.Second, time.Second},
+			{1500 * time.Millisecond, 400 * time.Millisecond}, {250 * time.Millisecond, 3 * time.Second}} {
+			for lost := int(n); lost <= int(n)+2; lost++ {
+				scs = append(scs, ackTailLossScenario(n, to[0], to[1], lost))
+			}
+		}
+	}
 	for _, n := range []uint8{1, 3, 20} {
 		for _, p := range []time.Duration{300 * time.Millisecond, 900 * time.Millisecond, 1500 * time.Millisecond} {
 			scs = append(scs, tailLossScenario(n, p, false), tailLossScenario(n, p, true))
@@ -247,6 +273,9 @@ func TestC06(t *testing.T) {
 		}
 		if len(sc.Name) > 4 && sc.Name[:4] == "tail" {
 			class = "tail-loss"
+		}
+		if len(sc.Name) > 8 && sc.Name[:8] == "ack-tail" {
+			class = "ack-tail-loss"
 		}
 		r.Case(sc.Name, faulty, fmt.Sprintf("%s/n=%d/ka=%v/static=%v/hs=%v/asym=%v", class, sc.N, sc.PingNs > 0, sc.Static, sc.HsTimeout, sc.StaticEP != [2]time.Duration{}))
 		// an accepted message is delivered within `bound` of (acceptance, end of faults)
